@@ -795,8 +795,12 @@ class DefaultControllerPlugin(ControllerPluginBase):
                             self.ctl.output(error)
                             self.ctl.exitstatus = LSBInitExitStatuses.INVALID_ARGS
                         else:
+                            # report the fault for this group and go on with
+                            # the remaining targets
+                            error = "%s: ERROR (%s)" % (group_name,
+                                                        e.faultString)
+                            self.ctl.output(error)
                             self.ctl.exitstatus = LSBInitExitStatuses.GENERIC
-                            raise
                 else:
                     try:
                         result = supervisor.startProcess(name)
@@ -875,7 +879,11 @@ class DefaultControllerPlugin(ControllerPluginBase):
                             error = "%s: ERROR (no such group)" % group_name
                             self.ctl.output(error)
                         else:
-                            raise
+                            # report the fault for this group and go on with
+                            # the remaining targets
+                            error = "%s: ERROR (%s)" % (group_name,
+                                                        e.faultString)
+                            self.ctl.output(error)
                 else:
                     try:
                         supervisor.stopProcess(name)
@@ -935,7 +943,12 @@ class DefaultControllerPlugin(ControllerPluginBase):
                             self.ctl.output(error)
                             self.ctl.exitstatus = LSBInitExitStatuses.GENERIC
                         else:
-                            raise
+                            # report the fault for this group and go on with
+                            # the remaining targets
+                            error = "%s: ERROR (%s)" % (group_name,
+                                                        e.faultString)
+                            self.ctl.output(error)
+                            self.ctl.exitstatus = LSBInitExitStatuses.GENERIC
                 else:
                     try:
                         supervisor.signalProcess(name, sig)
